@@ -173,7 +173,7 @@ Lemma check_state_ok st cid dc now f d :
   check_state st cid dc now f = inl d ->
   f = FNone /\ find_dev st dc = Some d /\ d_client d = cid /\ d_denied d = false /\ d_done d = true.
 Proof.
-  unfold check_state, get_dev. destruct f; try discriminate.
+  unfold check_state, get_dev. destruct f as [|e0]; [|destruct (is_deadline e0); discriminate].
   destruct (find_dev st dc) as [d'|]; [|discriminate].
   destruct (String.eqb_spec (d_client d') cid); [|discriminate].
   destruct (d_denied d') eqn:Hden; [discriminate|].
@@ -185,14 +185,13 @@ Qed.
 Lemma check_state_refusal st cid dc now f e :
   check_state st cid dc now f = inr e -> promised st cid dc now f e = true.
 Proof.
-  unfold check_state, get_dev, promised. destruct f.
+  unfold check_state, get_dev, promised. destruct f as [|e0].
   - destruct (find_dev st dc) as [d|]; [|reflexivity].
     destruct (String.eqb (d_client d) cid); [|reflexivity]. cbn [negb].
     destruct (d_denied d); [now inversion 1|].
     destruct (d_done d); [discriminate|].
     destruct (now >? d_expires d)%Z; now inversion 1.
-  - now inversion 1.
-  - reflexivity.
+  - destruct (is_deadline e0); [now inversion 1 | reflexivity].
 Qed.
 
 (* a token answer, taken apart *)
@@ -635,7 +634,7 @@ Lemma poll_answers g cl tr st : reach g cl tr st ->
   find_client cl (claimed cr) = Some c -> canonical c cr = true -> c_dev c = true ->
   client_ok c = true -> dc <> "" ->
   let x := poll g cl st r cr dc now f host fwd in
-  (f = FDeadline -> x = RErr "slow_down") /\
+  (forall e, f = FFail e -> is_deadline e = true -> x = RErr "slow_down") /\
   (f = FNone ->
      ((forall uc cid sc ex, issued_ev tr dc uc cid sc ex -> cid <> c_id c) ->
         x = RErr "access_denied") /\
@@ -651,7 +650,7 @@ Proof.
   intros Hr r cr dc now f host fwd c Hfc Hcan Hdev Hok Hdc x. subst x.
   pose proof (reach_inv _ _ _ _ Hr) as [I1 I2 I3 I4 I5].
   rewrite (poll_canonical g _ _ _ _ _ _ _ host fwd _ Hfc Hcan Hdev Hok Hdc).
-  split; [intros ->; reflexivity|]. intros ->. unfold check_state, get_dev. split.
+  split; [intros e -> He; cbn [check_state]; now rewrite He|]. intros ->. unfold check_state, get_dev. split.
   - intro Hno. destruct (find_dev st dc) as [d|] eqn:Hfd; [|reflexivity].
     apply find_dev_some in Hfd as [Hin Hcode].
     pose proof (I1 d Hin) as Hi. rewrite Hcode in Hi. apply Hno in Hi.
@@ -748,7 +747,7 @@ Definition ex_ops :=
   [ OpAuthz RProvider ex_web ["openid"; "profile"] 1000%Z 300%Z ex_rnd "other.example" None;
     OpPoll RLegacy ex_web ex_dc 2000%Z FNone "op.example.com" None;
     OpPoll RProvider ex_native ex_dc 2000%Z FNone "op.example.com" None;
-    OpPoll RProvider ex_web ex_dc 2000%Z FDeadline "op.example.com" None;
+    OpPoll RProvider ex_web ex_dc 2000%Z (FFail (EOidc "server_error" (Some (EWrap EDeadline)))) "op.example.com" None;
     OpApprove "BC-DF" "alice";
     OpPoll RLegacy ex_web ex_dc 3000%Z FNone "a.example" (Some "b.example");
     OpDeny "BC-DF";
